@@ -19,7 +19,9 @@ class Spec(object):
                reqs.put_aggs(P(1), 2, [world.A(1)])]
         used = pop + [reqs.put_alloc(K(1), {P(1): {'VCPU': 1}}),
                       reqs.put_alloc(K(2), {P(1): {world.CUSTOM_CLASS: 1}, P(2): {'VCPU': 1}})]
-        return [('populated', pop), ('in-use', used)]
+        # providers never written to (generation 0: the falsy boundary value of every counter)
+        fresh = pop[:4]
+        return [('populated', pop), ('in-use', used), ('fresh', fresh)]
 
     def canon(self, d):
         return d.key(gens=False)
@@ -81,7 +83,76 @@ def run(ctx):
          'and 1.19, PUT/POST/DELETE allocations incl. bulk, move, clear, reshaper, provider '
          'rename/re-parent), their rejected (stale generation) variants and all read routes; '
          'oracle on every transition from the concrete pre/post generation columns')
+    if not ctx.new_violations():
+        conc_part(ctx)
+
+
+def conc_scenarios():
+    """Writers that bump a generation racing each other and racing the writes that must leave it
+    alone (PUT /resource_providers/{uuid} carries and changes no generation)."""
+    from vp import reqs
+    from vp.http import R
+    from vp.names import A, K, P
+    four = {'total': 4}
+    base = [reqs.mk_rp(1), reqs.mk_rp(2), reqs.put_invs(P(1), 0, {'VCPU': four}),
+            reqs.put_invs(P(2), 0, {'VCPU': four}), reqs.put_alloc(K(1), {P(1): {'VCPU': 1}})]
+    # generations after base: P1 = 2, P2 = 1, K1 = 1
+    o = {
+        'rename P1': R('PUT', '/resource_providers/' + P(1), {'name': 'p1-renamed'}, mv='1.39'),
+        're-parent P1 under P2': R('PUT', '/resource_providers/' + P(1),
+                                   {'name': 'p1', 'parent_provider_uuid': P(2)}, mv='1.39'),
+        'PUT inventories P1': reqs.put_invs(P(1), 2, {'VCPU': {'total': 8}}),
+        'PUT traits P1': reqs.put_traits(P(1), 2, ['HW_CPU_X86_AVX']),
+        'PUT aggregates P1': reqs.put_aggs(P(1), 2, [A(1)]),
+        'PUT aggregates P1 @1.18': reqs.put_aggs(P(1), None, [A(2)], mv='1.18'),
+        'DELETE traits P1': reqs.del_traits(P(1)),
+        'POST inventory P1': reqs.post_inv(P(1), 'DISK_GB', {'total': 10}),
+        'PUT allocations K2 on P1': reqs.put_alloc(K(2), {P(1): {'VCPU': 1}}),
+        'PUT allocations K1 on P1+P2': reqs.put_alloc(K(1), {P(1): {'VCPU': 1},
+                                                             P(2): {'VCPU': 1}}, cgen=1),
+        'PUT allocations K1 clear': reqs.put_alloc(K(1), {}, cgen=1),
+        'DELETE allocations K1': reqs.del_alloc(K(1)),
+    }
+    names = list(o)
+    pairs = [(a, b) for a in ('rename P1', 're-parent P1 under P2') for b in names[2:]]
+    pairs += [('PUT inventories P1', 'PUT allocations K2 on P1'),
+              ('PUT traits P1', 'PUT aggregates P1 @1.18'),
+              ('PUT allocations K2 on P1', 'PUT allocations K1 on P1+P2'),
+              ('PUT allocations K1 on P1+P2', 'PUT allocations K1 clear'),
+              ('PUT allocations K1 on P1+P2', 'DELETE allocations K1'),
+              ('DELETE traits P1', 'POST inventory P1'),
+              ('PUT aggregates P1 @1.18', 'PUT aggregates P1')]
+    out = []
+    for a, b in pairs:
+        ra, rb = dict(o[a]), dict(o[b])
+        ra['tag'], rb['tag'] = a, b
+        out.append({'name': '%s || %s' % (a, b), 'setup': base, 'requests': [ra, rb],
+                    'bound': None, 'max_exec': 4000})
+    return out
+
+
+def conc_part(ctx):
+    from vp import explore_conc
+    sc = conc_scenarios()
+    tot = explore_conc.run_scenarios(ctx, 'C10', sc)
+    ctx.coverage['concurrent_part'] = {
+        'scenarios': tot['scenarios'], 'scenarios_planned': len(sc), 'states': tot['states'],
+        'transitions': tot['transitions'], 'schedules_executed': tot['executions'],
+        'outcome_vectors': tot['outcome_vectors'],
+        'rule': 'ALL interleavings (top-level-transaction granularity) of %d pairs: provider '
+                'rename / re-parent (no generation) against every generation-bumping write, and '
+                'bumping writes against each other; judged on every complete schedule: the '
+                'generation of each provider and consumer record never decreases between the '
+                'begins of successive transactions and the final rows, a reported generation has '
+                'been reached, and the successful requests equal one of their serial orders '
+                '(generations included)' % len(sc)}
+    ctx.coverage['states'] += tot['states']
+    ctx.coverage['transitions'] += tot['transitions']
+    ctx.coverage['traces_validated_against_impl'] += tot['executions']
 
 
 def replay(ctx, data):
+    if data.get('engine') == 'conc':
+        from vp import explore_conc
+        return explore_conc.replay(ctx, data)
     return explore_seq.replay(ctx, data)
